@@ -82,9 +82,35 @@ def check(pid, tier):
         rep2 = tlc_trace(run, "IngestTrace", "IngestTrace.cfg", ht, env={"PLAN": _empty(run)}, tag="svc")
         record_violations(run, pid, rep2["viol"], hl, trace_name="hostile")
         svc = {"batches": rep2["stats"]["svc"], "hostile": rep2["stats"]["hostile"], "cases": len(pick)}
+        # ---- service level, frame-facing services: DHCP, router advertisements and LLDP on a veth pair
+        frames = [c for c in cases if c["fmt"] in ("dhcp", "dhcphdr", "nd", "ndhdr", "lldp")]
+        fpick = []
+        strata = {}
+        for c in frames:
+            strata.setdefault((c["fmt"], c["k"]), []).append(c)
+        for k, cs in sorted(strata.items()):
+            fpick += cs if run.thorough or k[1] in ("hdr", "mgmt") else run.rng.sample(cs, min(len(cs), 300))
+        run.rng.shuffle(fpick)
+        fcases = [{"acls": None, "steps": [{"op": "probe"}] + sum(([{"op": "hostile", "cases": part}, {"op": "probe"}] for part in chunks(fpick, 400)), [])}]
+        ff = run.path("frames.ndjson")
+        open(ff, "w").write("".join(json.dumps(c) + "\n" for c in fcases))
+        ft = run.path("frames-trace.ndjson")
+        p = drive(run, "rig", ["full", "--cases", ff, "--out", ft], timeout=7200, check=False)
+        fl = open(ft).readlines() if os.path.exists(ft) else []
+        if not any('"ev":"svc"' in l for l in fl) and p.returncode != 0:
+            raise ToolError("rig full did not start (exit %s): %s" % (p.returncode, (p.stderr or "")[-400:]))
+        nprobes = 1 + len(list(chunks(fpick, 400)))
+        if sum(1 for l in fl if '"ev":"svc"' in l) < nprobes:
+            fl.append(json.dumps({"ev": "svc", "case": 0, "hostile": 0, "panics": 0, "alive": False, "answered": False,
+                                  "detail": "the process hosting the DHCP / RA / LLDP services died (exit %s): %s" % (p.returncode, (p.stderr or "")[-300:].replace("\n", " "))}) + "\n")
+            open(ft, "w").write("".join(fl))
+        rep3 = tlc_trace(run, "IngestTrace", "IngestTrace.cfg", ft, env={"PLAN": _empty(run)}, tag="frames")
+        record_violations(run, pid, rep3["viol"], fl, trace_name="frames", max_prefix=3)
+        svc["frame_batches"] = rep3["stats"]["svc"]
+        svc["frames"] = rep3["stats"]["hostile"]
         nfeeds = stats["feeds"]
         cov = {
-            "evaluations": nfeeds + svc["hostile"], "traces_validated_against_impl": 2, "events_validated": len(lines) + len(hl),
+            "evaluations": nfeeds + svc["hostile"] + svc["frames"], "traces_validated_against_impl": 3, "events_validated": len(lines) + len(hl),
             "states": run.mc["states"], "transitions": run.mc["transitions"],
             "distinct_nontrivial": len({json.dumps(c, sort_keys=True) for c in cases}),
             "rule": "case = one element of the WireGrammar product (TLC-enumerated: %d in the grammar, %d in this tier's plan): format x item kind x boundary length x fill x honesty of the declared length, DNS name shape x position, record type x rdlength, OPT placement, header field x boundary value; each assembled into a consistent packet and fed to every handler it applies to; plus every truncation point and 10 boundary octets at every offset of 6 seed packets, plus seeded random strings and multi-mutations; distinct_nontrivial counts distinct grammar cases only" % (ngrammar, len(cases)),
@@ -94,7 +120,7 @@ def check(pid, tier):
         rc = finish(run, "exploration", cov, [
             "function level: handlers are called the way DhcpService::recvdhcp / the DNS listener and cache / radv / lldp call them, minus sockets (decode, the logging accessors, handle_pkt, reply framing, cache insert and later lookups); run in a child process so aborts and hangs are outcomes",
             "service level: real DnsService in a private namespace; hostile client datagrams over UDP/TCP (with lying TCP frames) and hostile upstream replies over UDP/TCP, then a valid query over UDP and TCP must be answered and no task may have panicked",
-            "DHCP, RA and LLDP services are covered at function level only (their sockets need raw frames)",
+            "service level, frames: real DhcpService, RaAdvService and LldpService on one end of a veth pair in the private namespace; grammar cases sent as DHCP broadcasts, ICMPv6 messages (checksum made valid so that the kernel delivers them) and LLDP frames from a packet socket on the other end; then a DISCOVER and a router solicitation must be answered, no task may have panicked or ended; log records are formatted at level info as the shipped binaries do",
             "exploration: the input space is sampled by structure, not exhausted",
         ])
     except ToolError as e:
